@@ -152,6 +152,22 @@ CLAIMED["C08"] = dict(
     technique="Lean 4 monoid-power proofs + tensordot associativity + Mathlib exponential bound + correspondence",
     ref="DESIGN.md §5 C08")
 
+CLAIMED["C13"] = dict(
+    text="Lean 4 proof over any field of characteristic zero (angular frequencies in units of pi so that all axis arithmetic is "
+         "rational): time axis -> frequency axis -> time axis and frequency -> time -> frequency are the identity for complete axes of "
+         "every length (even and odd), start, step and offset, and for upper-half axes; upper-half frequency axes with an odd number "
+         "of points are refused. Over any commutative semiring and ANY root zeta: the transform on a complete axis, "
+         "N*fftshift(ifft(ifftshift(y)))*dt, equals the direct Fourier sum Sum_m y[m] zeta^((j-h)(m-h)) dt with h = N//2 for every "
+         "length N >= 1 (pure index arithmetic: rotation bijection + congruence of exponents), i.e. the Fourier sum at the points of "
+         "the returned axis for axes centred at zero. Tied to the code by exact-rational comparison of every field of converted axes "
+         "(incl. conversions inside 1/cm and eV unit contexts with non-zero offsets), by the model's index map evaluated with the "
+         "numerical root of unity against DFunction.get_Fourier_transform, and by the oracle: direct Fourier sum on the returned "
+         "axis (complete and upper-half with Hermitian extension), transform-then-inverse. Partial: the upper-half index map and "
+         "FT^-1 o FT = id (orthogonality of the roots) are checked numerically, not proved.",
+    note="Lean kernel + standard axioms; numpy.fft contract (DFT with e^{-2 pi i/n}); hand model validated on generated inputs.",
+    technique="Lean 4 field identities + Fin-rotation/ModEq index proof + correspondence and direct-sum oracle",
+    ref="DESIGN.md §5 C13")
+
 NOT_APPLICABLE = {}
 
 
